@@ -49,6 +49,21 @@ PROPS["C08"] = dict(
     stubs=["image writer peer", "storage (SimFile/SimHandle)", "namespace (SimFS)", "clients (seeded histories)"],
 )
 
+PROPS["C07"] = dict(
+    engine="chains", level="exploration", quick=2500, thorough=120000,
+    rule=("one evaluation = one seeded layered writer history (2-6 layers; VHDX differencing, VMDK delta extents via descriptors "
+          "or embedded descriptors, Parallels snapshot chains, QCOW2 backing chains and internal snapshots, VDI parents) rendered "
+          "on the simulated namespace in one of five parent-location configurations, optionally with a namespace fault on an "
+          "ancestor; requests are compared with the n-layer overlay model, faulted chains must be refused at open. distinct = "
+          "(kind, depth, view, number of layers contributing to the range, alignment class, location) tuples; non-trivial = the "
+          "requested range is served by >=2 different layers, or the open had to be refused."),
+    expected_probes=["chain.kind_" + k for k in ("vhdx", "vmdk", "hdd", "qcow2", "qcow2snap", "vdi")] +
+                    ["chain.fault_" + f for f in ("missing_parent", "eacces_parent", "corrupt_parent", "no_name", "empty_hint", "no_backing_arg", "allow_no_backing", "missing_image")] +
+                    ["chain.loc_" + l for l in ("same", "sibling", "absolute", "stale_abs_local")],
+    assumptions=["parents are immutable once a child exists (copy-on-write content of a child equals the parent's)",
+                 "a parent file that exists but is corrupted is only required to be refused where the format validates a signature (VHDX)"],
+)
+
 NOT_BUILT_REASON = "check not built yet in this session (see DESIGN.md section 11 for the build order); not claimed until its engine exists"
 
 NOT_APPLICABLE = {
@@ -63,6 +78,10 @@ _DISK_NOTE = ("trusted base: the writer stub's reading of the format, the refere
 _DISK_TECH = "deterministic simulation (stub writer peer + simulated storage + reference model oracle), seeded search, ddmin replay"
 
 MANIFEST_TEXT = {
+    "C07": dict(text="seeded deterministic simulation of layered writer histories on a simulated namespace with parent-location "
+                     "configurations and namespace faults; n-layer overlay model + 'open must raise' oracle; sampled",
+                design_ref="DESIGN.md 4/C07", note=_DISK_NOTE + "; parent resolution is exercised through the patched pathlib seam only",
+                technique="deterministic simulation (layered stub writers + simulated namespace + namespace fault injection), overlay reference model, ddmin replay"),
     "C08": dict(text="seeded deterministic simulation of client access histories over every stream class, two buffer sizes per history, "
                      "self-consistency + contract oracle; sampled, not exhaustive",
                 design_ref="DESIGN.md 4/C08", note="trusted base: SimFile/SimHandle semantics, the contract model of AlignedStream positions; "
